@@ -2248,6 +2248,14 @@ def storage_root(v):
             if v.fn in ("elem", "carried", "after_loop"):
                 v = v.args[0]
                 continue
+            if v.fn == "ite" and len(v.args) == 3:
+                # a merged `if c: x = f(x)` leaves ite(c, fresh, x): on the other arm the name still IS the caller's array
+                # (np.where is the separate operator `where`, which allocates)
+                for arm in v.args[1:]:
+                    r = storage_root(arm)
+                    if r is not None:
+                        return r
+                return None
             return None
         return None
     return None
